@@ -32,8 +32,10 @@
   `set_by_name`, `array`, `array_push`, `set_new`, `set_put`, `map_keys`, `is_array` are there too,
   so `concat`, `unset`, `set_from_array`, `array_concat`, `map_contains_value`, `array_contains`,
   `array_join` RUN (driver op `srun`, compared with the real commands: all nine collection
-  scripts); ∀-theorems exist for the loop-free scripts, evaluated instances for the others
-  (Props/C12Scripts.lean, Props/C12ScriptsNatives.lean).
+  scripts); ∀-theorems exist for all nine collection scripts, `concat` and `unset`
+  (Props/C12Scripts.lean, Props/C11Scripts.lean; array_concat: success path and first-argument
+  error path; array_join: handle and separator of the class `ArgOK`), evaluated instances in
+  Props/C12ScriptsNatives.lean.
   Not modelled: the file/network/OS callees of the remaining scripts.
 
   State `ScriptSt`: the handle table of the collection model (`Coll.St`), the line-context
